@@ -376,7 +376,7 @@ PROPS["C18"] = {
 PROPS["C07"] = {
     "files": ["src/crypto/rotate.rs", "src/crypto/core.rs", "src/crypto/common.rs"],
     "functions": ["RotationState::process_message", "RotationState::cycle", "RotationState::new", "RotationState::create_key",
-                  "RotationState::derive_key", "CryptoCore::rotate_key"],
+                  "RotationState::derive_key", "CryptoCore::rotate_key", "PeerCrypto::every_second (rotation tick)"],
     "bounds": "ONE operation of the real rotation state machine per obligation, from a symbolic state (ids, key material, flags): "
               "receipt of a proposal, the confirming cycle, receipt of a confirmation, receipt of a stale/duplicate message, "
               "two cycles after a lost proposal; key slot installation (rotate_key) for ids r + 4k, all k < 2^32",
@@ -399,6 +399,10 @@ PROPS["C07"] = {
         K("c04_rotate_slot0_send", "rotate_key installs into slot id mod 4 and switches the sending slot when asked"),
         K("c04_rotate_slot1_recv", "rotate_key (receive only) leaves the sending slot alone"),
         K("c04_rotate_slot2_send", "slot 2", T), K("c04_rotate_slot3_recv", "slot 3", T),
+        K("c07_peercrypto_cycle_installs_id2", "PeerCrypto::every_second on the rotation tick: pending key installed into slot (id mod 4) of the REAL four-slot store for receiving, sending slot unchanged, confirmation sealed under the current key", timeout={"quick": 600}),
+        K("c07_peercrypto_cycle_installs_id5", "same, own id 3 -> message id 5 -> slot 1", timeout={"quick": 600}),
+        K("c07_peercrypto_cycle_installs_id3", "id 3 -> slot 3", T), K("c07_peercrypto_cycle_installs_id4", "id 4 -> slot 0 (the sending slot itself)", T),
+        K("c07_peercrypto_cycle_installs_id1000", "id 1000 -> slot 0", T),
     ],
 }
 
